@@ -306,13 +306,14 @@ struct MapDamage : Family {
 		// reference result for the saved-equals-map clause
 		for (size_t vi = 0; vi < variants.size(); ++vi) {
 			const Line& dmg = variants[vi];
-			ctx.setVariant(dmg.str());
+			// backend rotates so that every backend meets every damage class over the sweep; a pinned variant carries its backend
+			const std::string backendName = dmg.has("backend") ? dmg.get("backend") : (vi % 7 == 3) ? "file" : (vi % 7 == 5) ? "sim" : "mem";
+			{ Line pinned = dmg; pinned.set("backend", backendName); ctx.setVariant(pinned.str()); }
 			std::vector<uint8_t> bytes = applyDamage(valid, fields, dmg);
 			bool changed = bytes != valid;
 			++ctx.evaluations;
 			ctx.count("fault.damage_" + dmg.verb);
-			// backend rotates so that every backend meets every damage class over the sweep
-			const char* backend = (vi % 7 == 3) ? "file" : (vi % 7 == 5) ? "sim" : "mem";
+			const char* backend = backendName.c_str();
 			Map map;
 			std::string what;
 			Out o = callLib(plan, [&] {
